@@ -1,0 +1,27 @@
+//go:build verif
+
+package ntpestimator
+
+// Machine-checked contracts for /verif (govc). Comment-only: compiled only with -tags verif, adds no code.
+
+//@ func multiplyAndDivide
+//@   property C24
+//@   domain d >= 1 && m >= 1
+//@   requires d >= 1 && m >= 1 ==> (d-1)*m <= 9223372036854775807
+//@   domain inI64(tdiv(v*m, d))
+//@   ensures result == tdiv(v*m, d)
+
+//@ fieldinv Estimator.ClockRate range 1 4294967296 property C25, C24
+
+//@ func (e *Estimator) Estimate
+//@   property C25, C24
+//@   requires e.ClockRate >= 1 && e.ClockRate <= 4294967296
+//@   domain inI64(pts - e.refPTS)
+//@   domain inI64(tdiv((pts - e.refPTS)*1000000000, e.ClockRate))
+//@   def computed() int = old(e.refNTP.ns) + tdiv((pts - old(e.refPTS))*1000000000, old(e.ClockRate))
+//@   def steady() bool = old(e.refNTP.ns) != old(zero.ns) && computed() <= wallclock() && computed() >= wallclock() - 5000000000
+//@   ensures [never-ahead] result.ns <= wallclock()
+//@   ensures [at-most-5s-behind] result.ns >= wallclock() - 5000000000
+//@   ensures [steady-exact] steady() ==> result.ns == computed() && e.refNTP.ns == old(e.refNTP.ns) && e.refPTS == old(e.refPTS)
+//@   ensures [reset] !steady() ==> result.ns == wallclock() && e.refNTP.ns == wallclock() && e.refPTS == pts
+//@   ensures [rate-kept] e.ClockRate == old(e.ClockRate)
